@@ -8,7 +8,7 @@ import lib
 PROP = "C16"
 LEVEL = "proof"
 THEOREM_FILE = "properties/C16.v"
-CASE_DEPS = ["theories/Highwater.v"]
+CASE_DEPS = ["theories/Checks.v", "theories/Highwater.v"]
 RULE = ("stream hier-highwater: seeded random fully wired hierarchies with children listed in execution order, long bypass wires, "
         "pass-throughs, through ports, non-negative integer sizes and local_ancillae resources, compiled by the real code with the "
         "derived resource qubit_highwater; the compiled tree is read in the order the SOURCE lists the children (an execution order; reorder_like); at natural-number points (evaluated in Coq, AND as the all-numeric trees the real evaluate() returns), and at points with some negative parameters at which every port size is still non-negative, every node's reported highwater is compared inside Coq with the "
@@ -26,7 +26,7 @@ def gen_cases(rng, n, max_depth):
                             p_through=0.25, qubits=True, p_constrain=0)   # (a rejected size constraint is C06 business: every case here compiles)
         if H.count_nodes(r) > 12:
             continue
-        out.append({"routine": r, "n_eval": 2, "eval_seed": rng.randint(0, 10**9)})
+        out.append({"routine": r, "n_eval": 2, "eval_seed": rng.randint(0, 10**9), "native": rng.random() < 0.5})
         if rng.random() < 0.3:
             out[-1]["remap"] = rng.randint(1, 10**6)   # handed over as an edited Routine object (see impl_highwater)
     return out
@@ -46,7 +46,7 @@ def make_points(rng, names, n=3):
 
 
 def emit(pairs):
-    lines = [lib.CASE_HEADER.format(imports="RepModel Routine Compile CompileTop Highwater", gen_imports="")]
+    lines = [lib.CASE_HEADER.format(imports="RepModel Routine Compile CompileTop Highwater Checks", gen_imports="")]
     items = []
     for k, (case, imp) in enumerate(pairs):
         lines.append(f"Definition i{k} : impl_result := {H.impl_to_coq(imp)}.")
@@ -54,6 +54,10 @@ def emit(pairs):
         pts = H.points_to_coq(make_points(lib.Rng(f"pts-{lib.case_hash(case)}"), names))
         lines.append(f"Definition r{k} : routine := {H.routine_to_coq(case['routine'])}.")
         parts = [f"check_highwater_src r{k} i{k} {pts}"]
+        if imp.get("ok"):
+            # the compiled hierarchy the highwater is taken on is the one handed over: every port size against the compile model
+            tp = H.points_to_coq(H.make_points(lib.Rng(f"tp-{lib.case_hash(case)}"), names, 3))
+            parts.append(f"tie_ports r{k} i{k} {'true' if imp.get('inexact') else 'false'} {tp}")
         # ... and the numbers the real evaluate() reports at natural-number points (one all-numeric tree per point)
         for j, ev in enumerate(imp.get("evals", []) if imp.get("ok") else []):
             if ev.get("ok"):
